@@ -5,15 +5,15 @@ Require Import MayV.Queue.SpscModel MayV.Queue.SpscInv.
 
 Ltac inv_some := match goal with H : Some _ = Some _ |- _ => inversion H; subst; clear H end.
 Ltac sp :=
-  cbn [M P C Q K F tidx tblk hidx hblk first lasth nxt slot nalloc pp pv pnew plh
-       cp cop cpidx cend ck cacc cnh clh cres absq pushed popped glen0
-       bid gfk glk gplk ghk gtk gnb bad_fifo bad_none bad_read bad_recyc bad_over bad_null bad_len
+  cbn [M P C Q K F tidx tblk hidx hblk first lasth nxt slot nalloc pp pv pnew plh plenh pres
+       cp cop cpidx cend ck cacc cnh clh cres absq pushed popped glen0 glen0p q_len0p
+       bid gfk glk gplk ghk gtk gnb bad_fifo bad_none bad_read bad_recyc bad_over bad_null bad_len bad_lenp f_lenp
        m_tidx m_tblk m_hidx m_hblk m_first m_lasth m_nxt m_slot m_nalloc p_pc p_new p_lh c_pc
        k_fk k_lk k_plk k_hk k_tk k_app f_fifo f_none f_read f_recyc f_over f_null f_len] in *.
 Ltac step_cases H :=
   unfold SpscModel.step, start_call, recycle in H; cbv zeta in H;
   repeat match type of H with
-  | context [match ?ac with Push _ => _ | PStep => _ | Pop => _ | Bulk => _ | Peek => _ | Len => _ | CStep => _ end] => destruct ac
+  | context [match ?ac with Push _ => _ | PLen => _ | PStep => _ | Pop => _ | Bulk => _ | Peek => _ | Len => _ | CStep => _ end] => destruct ac
   | context [match pp ?x with _ => _ end] => let E := fresh "Epp" in destruct (pp x) eqn:E
   | context [match cp ?x with _ => _ end] => let E := fresh "Ecp" in destruct (cp x) eqn:E
   | context [match cop ?x with _ => _ end] => let E := fresh "Eop" in destruct (cop x) eqn:E
@@ -26,7 +26,7 @@ Ltac step_cases_r Hi H :=
   | context [slot (M ?s) (hblk (M ?s)) (ck (C ?s) mod _)] =>
       match goal with Ecp : cp (C s) = CRead, Bp : 1 <= _ |- _ =>
         rewrite (read_ok _ Bp s Hi Ecp) in H; rewrite Nat.eqb_refl in H end
-  | context [match ?ac with Push _ => _ | PStep => _ | Pop => _ | Bulk => _ | Peek => _ | Len => _ | CStep => _ end] => destruct ac
+  | context [match ?ac with Push _ => _ | PLen => _ | PStep => _ | Pop => _ | Bulk => _ | Peek => _ | Len => _ | CStep => _ end] => destruct ac
   | context [match pp ?x with _ => _ end] => let E := fresh "Epp" in destruct (pp x) eqn:E
   | context [match cp ?x with _ => _ end] => let E := fresh "Ecp" in destruct (cp x) eqn:E
   | context [match cop ?x with _ => _ end] => let E := fresh "Eop" in destruct (cop x) eqn:E
